@@ -23,6 +23,8 @@ ASSUMPTIONS = [
     "Duration::from_secs_f64 (round half to even), chrono's last representable second 8 210 266 876 799",
     "f64: the decimal -> binary64 rounding of str::parse::<f64> is a parameter (FloatSem) in every theorem; the driver instantiates it with IEEE-754 round-to-nearest-even on exact "
     "rationals (subnormals and overflow included) and compares exactly, not with a tolerance",
+    "the spec driver decides the f64 helpers only on numerals that binary64 represents exactly (so no rounding is involved) and on strings containing a character foreign to the "
+    "documented grammar of f64::from_str; panics are never required by the spec (where the code panics the spec is silent)",
     "JSON values reach the de.rs model pre-lexed (plain string / string with escapes / unsigned integer literal / anything else); the lexer is driver glue",
     "a numeral followed by junk inside one JSON token (e.g. `18446744073709551615x`) is not generated for the bare-number helper: serde_json calls the helper before it sees the junk",
 ]
@@ -32,6 +34,7 @@ SOURCE_FILES = ["barter-integration/src/stream/mod.rs", "barter-integration/src/
 
 
 def signature(ops, k, key, impl_line, spec_line):
+    key = key.rstrip("0123456789")  # out<i> / col<i> are positional keys
     op = ops[k].split() if k < len(ops) else ["?"]
     kind = op[0]
     if kind in ("parse", "push", "bpush") and len(op) > 1:
@@ -60,7 +63,14 @@ LEVEL_TEXT = ("Proof (sub-check of C12). lean/BarterModel/Props/C12W.lean proves
               "fitting u64 (parse_u64_ok_iff); string and number encodings agree (str_u64_agrees_with_u64); f64 ms truncates, negative and NaN become the epoch, inf panics "
               "(f64_ms_value, f64_ms_truncates, f64_ms_negative_is_epoch, f64_ms_nan_is_epoch, f64_ms_inf); f64 s is the nearest nanosecond, within delta*1e9 + 1/2 ns of the "
               "decimal for any rounding error delta, and PANICS on negative / NaN / inf / >= 2^64 (f64_s_value, f64_s_nearest_nanosecond, f64_s_within_tolerance, f64_s_panics); "
-              "extract_next sequences (extract_all_ok, extract_all_missing); se_element_to_vector. No theorem is _partial.")
+              "extract_next sequences (extract_all_ok, extract_all_missing); se_element_to_vector. The parser and is_websocket_disconnected refine a documentation-level "
+              "decision table wherever it is not silent, and it is silent exactly for a failed non-UTF-8 binary payload (parse_refines_spec, spec_silent_iff, "
+              "disconnected_refines_spec). End to end from the characters of a decimal / scientific numeral: f64::from_str reads the rounding of the denoted value "
+              "(f64_from_str_numerals, f64_from_str_scientific, f64_from_str_rejects), the seconds helper is within delta*1e9 + 1/2 ns of it (f64_s_decimal_within_tolerance), "
+              "the milliseconds helper truncates (f64_ms_decimal_end_to_end, f64_ms_huge_panics), a negative numeral is the epoch / a panic (negative_numeral). A poll reads "
+              "no further than needed (poll_is_lazy). Every ExchangeStream run is one connection script of the C12 model (exchange_stream_is_a_c12_connection). "
+              "No theorem is _partial. Self-test: 18 hand-written changes of the modelled code (mutants/C12W_*.patch) - 17 reported with a concrete violating input, "
+              "1 (binary payload rendered lossily instead of as the UTF-8 error text, where the documentation is silent) as no-failing-input-found.")
 LEVEL_NOTE = ("Trusted: Lean kernel; axioms propext/Classical.choice/Quot.sound only; the hand-written model (Model/ExchangeStream.lean) tied to the code by sampled correspondence "
               "(400 quick / 8 000 random + 7 381 enumerated scripts + full catalogues thorough); harness, driver glue (JSON lexer, Vec<u32> reader, scripted transformer on both "
               "sides); the modelled slices of tungstenite / bytes / core / chrono named in the assumptions. Wakers, serde_json error texts, tracing and `connect` are not modelled.")
